@@ -125,7 +125,8 @@ impl DeadlineSectorMap {
             final(self).view() == old(self).view(),
             r@.len() == dsm_keys(old(self).view()).len(),
             forall|i: int| 0 <= i < r@.len() ==> (#[trigger] r@[i]).0 == dsm_keys(old(self).view())[i] && old(self).view().dom().contains(r@[i].0) && r@[i].1.view() == old(self).view()[r@[i].0],
-            forall|i: int, j: int| 0 <= i < j < r@.len() ==> r@[i].0 < r@[j].0,
+            forall|i: int, j: int| 0 <= i < j < r@.len() ==> dsm_keys(old(self).view())[i] < dsm_keys(old(self).view())[j],
+            forall|i: int| 0 <= i < r@.len() ==> old(self).view().dom().contains(#[trigger] dsm_keys(old(self).view())[i]),
             forall|k: u64| old(self).view().dom().contains(k) ==> exists|i: int| 0 <= i < r@.len() && #[trigger] dsm_keys(old(self).view())[i] == k,
     { unimplemented!() }
 }
@@ -206,12 +207,15 @@ impl Deadline {
         ensures r.is_ok() ==> r->Ok_0 == dlx_lpd_info(*self, partitions@)
     { unimplemented!() }
 }
-/// monies.rs pledge_penalty_for_invalid_windowpost, policy.rs reward_for_disputed_window_post: opaque amounts (fee formulas)
+/// monies.rs pledge_penalty_for_invalid_windowpost (fixed-point projection of the expected reward + a base penalty), policy.rs
+/// reward_for_disputed_window_post (currently a constant): opaque amounts, deterministic functions of their inputs
+pub uninterp spec fn ppiw_spec(reward: FilterEstimate, network_qa: FilterEstimate, qa_sector_power: int) -> int;
 #[verifier::external_body]
 pub fn pledge_penalty_for_invalid_windowpost(reward_estimate: &FilterEstimate, network_qa_power_estimate: &FilterEstimate, qa_sector_power: &StoragePower) -> (r: TokenAmount)
-    ensures r@ >= 0
+    ensures r@ == ppiw_spec(*reward_estimate, *network_qa_power_estimate, qa_sector_power@)
 { unimplemented!() }
+pub uninterp spec fn rdwp_spec(proof_type: RegisteredPoStProof, raw: int, qa: int) -> int;
 #[verifier::external_body]
 pub fn reward_for_disputed_window_post(proof_type: RegisteredPoStProof, disputed_power: PowerPair) -> (r: TokenAmount)
-    ensures r@ >= 0
+    ensures r@ == rdwp_spec(proof_type, disputed_power.raw@, disputed_power.qa@)
 { unimplemented!() }
